@@ -197,7 +197,7 @@ example : taylorLoop (fun k => decide (5 ≤ k)) 30 = some 5 ∧ taylorLoop (fun
 /-! ### branch skeleton of the transcribed function (regenerated by harness/translate/guards.py) -/
 
 /-- the loops of `apply_generated_unitary` that Model/Algo.lean transcribes: Taylor breaks on one small term, Chebyshev on two in a row, both raise from the loop's else branch -/
-def C16_series_skeletonReviewed : List String := ["if not isinstance(expansion, int)", "raise TypeError", "endif", "if not isinstance(hamil, sparse_hamiltonian.SparseHamiltonian) and self._conserve_spin and (not self._conserve_number)", "else", "endif", "if algo == 'taylor'", "if isinstance(hamil, diagonal_coulomb.DiagonalCoulomb)", "endif", "for order in range(1, max_expansion)", "if work.norm() * numpy.abs(coeff) < accuracy", "break", "endif", "loop-else", "raise RuntimeError", "endloop", "else", "if algo == 'chebyshev'", "for order in range(2, max_expansion)", "if small and previous_small", "break", "endif", "loop-else", "raise RuntimeError", "endloop", "endif", "endif", "if algo == 'taylor' and numpy.abs(hamil.e_0() * time) > 1e-15", "endif", "if self._conserve_spin and (not self._conserve_number)", "endif", "return"]
+def C16_series_skeletonReviewed : List String := ["if not isinstance(expansion, int)", "raise TypeError", "endif", "if not isinstance(hamil, sparse_hamiltonian.SparseHamiltonian) and self._conserve_spin and (not self._conserve_number)", "else", "endif", "if base is not self and (not hamil.conserve_number())", "endif", "if algo == 'taylor'", "if isinstance(hamil, diagonal_coulomb.DiagonalCoulomb)", "endif", "for order in range(1, max_expansion)", "if work.norm() * numpy.abs(coeff) < accuracy", "break", "endif", "loop-else", "raise RuntimeError", "endloop", "else", "if algo == 'chebyshev'", "for order in range(2, max_expansion)", "if small and previous_small", "break", "endif", "loop-else", "raise RuntimeError", "endloop", "endif", "endif", "if algo == 'taylor' and numpy.abs(hamil.e_0() * time) > 1e-15", "endif", "if self._conserve_spin and (not self._conserve_number)", "endif", "return"]
 
 set_option maxRecDepth 100000 in
 theorem C16_series_skeleton : (GenGuards.decisionSkeleton.find? (fun e => e.1 == "src/fqe/wavefunction.py" && e.2.1 == "Wavefunction.apply_generated_unitary")).map (·.2.2) =
